@@ -366,6 +366,23 @@ def evaluate(ctx, node, fields, tree):
             # complex multiplication/division are not bit-reproducible between operand
             # orders inside numpy itself (probed): allow 4 ulp
             ok = core.close(got, exp, rtol=4 * EPS)
+        if not ok and got.shape == exp.shape and _single_precision(vals, exp):
+            # a single-precision operand: numpy computes the node in float32/complex64,
+            # the library may compute (part of) it in double precision (-f is stored as
+            # float64, so number - f32_field is evaluated in double) - both are "the same
+            # expression" to the precision of the operands (rule R2): 8 float32 ulp of the
+            # operands' magnitudes
+            with np.errstate(all="ignore"):
+                bound = np.maximum(np.abs(exp.astype(complex)), np.abs(got.astype(complex)))
+                for v in vals:
+                    try:
+                        bound = np.maximum(bound, np.broadcast_to(
+                            np.abs(np.asarray(as_np(v)).astype(complex)), bound.shape))
+                    except ValueError:
+                        pass
+                fin = np.isfinite(got) & np.isfinite(exp)
+                ok = bool(np.array_equal(np.isfinite(got), np.isfinite(exp)) and np.all(
+                    np.abs(got[fin] - exp[fin]) <= 8 * np.finfo(np.float32).eps * bound[fin]))
         ctx.check("C03.node.values", ok, **info, got_dtype=str(got.dtype), exp_dtype=str(exp.dtype),
                   got_shape=got.shape, exp_shape=exp.shape, maxdiff=core.maxdiff(got, exp))
         ctx.check("C03.node.kind_of_number",
@@ -374,17 +391,27 @@ def evaluate(ctx, node, fields, tree):
     return res
 
 
+def _single_precision(vals, exp):
+    kinds = [np.asarray(as_np(v)).dtype for v in vals] + [exp.dtype]
+    return any(d in (np.float32, np.complex64) for d in kinds)
+
+
 def check_angle(ctx, vals, got, info):
     a = np.asarray(as_np(vals[0]))
     b = np.broadcast_to(np.asarray(as_np(vals[1])), a.shape)
     if np.iscomplexobj(a) or np.iscomplexobj(b):
         return
+    double = a.dtype == np.float64 and b.dtype == np.float64
+    # reference in double precision (exact for the single-precision data); cells whose
+    # cosine is within the rounding error of the operands' own precision of +-1 are not
+    # judged: there arccos is ill-conditioned (NaN just beyond 1), rule R3
+    a, b = a.astype(np.float64), b.astype(np.float64)
     with np.errstate(all="ignore"):
         na = np.sqrt(np.sum(a * a, axis=-1, keepdims=True))
         nb = np.sqrt(np.sum(b * b, axis=-1, keepdims=True))
         cos = np.sum(a * b, axis=-1, keepdims=True) / (na * nb)
-        judged = np.isfinite(cos) & (np.abs(cos) < 1 - 1e-9) & (na > 0) & (nb > 0)
-        tol = 1e-12 if (a.dtype == np.float64 and b.dtype == np.float64) else 1e-5
+        judged = np.isfinite(cos) & (np.abs(cos) < 1 - (1e-9 if double else 1e-5)) & (na > 0) & (nb > 0)
+        tol = 1e-12 if double else 1e-5
         ok = got.shape == cos.shape and bool(np.all(np.abs(np.cos(got[judged]) - cos[judged]) <= tol))
         ok = ok and bool(np.all((got[judged] >= 0) & (got[judged] <= np.pi)))
     ctx.check("C03.node.values", ok, **info, judged=int(np.sum(judged)))
